@@ -69,6 +69,15 @@ def gen_world(seed, wi):
 
 def gen_plan(rng, tier, i, seed):
     cfg = TIERS[tier]
+    if tier == "thorough" and i % 60 == 11:
+        # shipped NA10860 (CYP2D6, real reads): write the archive, replay it elsewhere
+        return {"shipped": rng.choice(["NA10860.bam", "NA10860_hg38.bam"]), "w": None, "genes": ["CYP2D6"],
+                "params": rng.choice([{}, {"gap": "0.1"}, {"max_minor_solutions": "2"}]), "cn": None,
+                "profile_name": "illumina", "out": rng.choice(["aldy", "vcf", "simple"]), "fault": "none",
+                "fault_at": 0, "fault_kind": "abnormal",
+                "write": {"hashseed": rng.choice([0, 1]), "cwd": "run", "clock": {}},
+                "replay": {"hashseed": rng.choice([2, 3, 4]), "cwd": rng.choice(["run", "root"]), "tmp": "run",
+                           "clock": {"start": 2.1e9, "jumps": [-3.0, 1.0]}, "per_gene": False}}
     w = gen_world(seed, i % cfg["worlds"])
     names = [g["name"] for g in w["world"]["genes"][: w["ngenes"]]]
     failing = w["world"]["genes"][-1]["name"]
@@ -129,6 +138,20 @@ def _materialise(runner, w):
 
 
 def execute(plan, runner, rundir):
+    if plan.get("shipped"):
+        common = {"shipped": plan["shipped"], "rundir": rundir, "genes": plan["genes"], "params": plan["params"],
+                  "cn": None, "out": plan["out"], "profile_name": plan["profile_name"], "build": "hg19",
+                  "sim": {"max_solves": 20000, "max_wall": 900.0}}
+        rd = runner.new_dir("direct")
+        try:
+            ref = runner.segment(dict(common, kind="direct", hashseed=0, cwd="run", rundir=rd, clock={}, tag="d"), timeout=900)
+        finally:
+            import shutil
+
+            shutil.rmtree(rd, ignore_errors=True)
+        wr = runner.segment(dict(common, kind="write", tag="w", **plan["write"]), timeout=900)
+        rp = runner.segment(dict(common, kind="replay", tag="r", **plan["replay"]), timeout=900) if wr["archive"] else None
+        return {"direct": ref, "write": wr, "replay": rp}
     w = plan["w"]
     wd, (worlddir, man) = _materialise(runner, w)
     common = {"worlddir": worlddir, "man": man, "rundir": rundir, "build": w["build"], "genes": plan["genes"],
@@ -267,7 +290,11 @@ def update_stats(acc, plan, out):
     if len(plan["genes"]) > 1:
         acc["multi"] += 1
     acc["shapes"].add(canon.digest([plan["genes"], plan["params"], plan["cn"], plan["out"], plan["fault"],
-                                    canon.digest(plan["w"])])[:12])
+                                    canon.digest(plan["w"]) if plan["w"] else plan.get("shipped")])[:12])
+    if plan.get("shipped"):
+        acc["shipped"] = acc.get("shipped", 0) + 1
+        acc["genes_compared"] += 1
+        return
     smp = plan["w"]["samples"]["s0"]
     if smp.get("paired"):
         acc["paired"] += 1
@@ -288,7 +315,7 @@ def update_stats(acc, plan, out):
 def sample_view(plan, out):
     return {"genes": plan["genes"], "params": plan["params"], "cn": plan["cn"], "out": plan["out"],
             "fault": plan["fault"], "write": plan["write"], "replay": plan["replay"],
-            "sample": plan["w"]["samples"]["s0"]["genes"], "archive_members": out["write"]["members"],
+            "sample": plan["w"]["samples"]["s0"]["genes"] if plan["w"] else plan.get("shipped"), "archive_members": out["write"]["members"],
             "direct_result": canon.jdump(out["direct"]["results"])[:400]}
 
 
@@ -310,6 +337,7 @@ def evidence(acc):
                 "paired_name_samples": acc["paired"],
                 "genes_compared": acc["genes_compared"],
                 "replay_clock_backward_jumps": acc["clock_backward"],
+                "shipped_NA10860_sessions": acc.get("shipped", 0),
             },
             "components": {
                 "real": ["aldy.__main__.main (argument parsing, debug archive, tar via os.system)", "aldy.sam dump "
@@ -349,6 +377,15 @@ def _install_genotype_recorder():
 
 
 def _argv(seg, source, debug=None, outp=None, genes=None, with_profile=True):
+    if seg.get("shipped"):
+        argv = ["genotype", source, "--gene", ",".join(seg["genes"]), "--profile", seg["profile_name"]]
+        if outp:
+            argv += ["-o", outp]
+        if debug:
+            argv += ["--debug", debug]
+        for k, v in seg["params"].items():
+            argv += ["--param", f"{k}={v}"]
+        return argv + ["--solver", "cbc"]
     wd, man = seg["worlddir"], seg["man"]
     genes = genes or seg["genes"]
     argv = ["genotype", source, "--gene", ",".join(os.path.join(wd, man["db"][g]) for g in genes)]
@@ -401,7 +438,13 @@ def run_segment(seg):
     if seg["kind"] == "materialise":
         return O.materialise(seg["world"], seg["dir"], seg["samples"], build=seg["build"], profile_yaml=False)
     ft = seams.install_clock(seg.get("clock") or {})
-    wd, man, rd = seg["worlddir"], seg["man"], seg["rundir"]
+    rd = seg["rundir"]
+    if seg.get("shipped"):
+        from aldy.common import script_path
+
+        wd, man = rd, {"samples": {"s0": script_path("aldy.tests.resources/" + seg["shipped"])}}
+    else:
+        wd, man = seg["worlddir"], seg["man"]
     os.makedirs(rd, exist_ok=True)
     os.chdir({"run": rd, "world": wd, "root": "/"}[seg.get("cwd", "run")])
     if seg.get("tmp") == "run":
